@@ -528,21 +528,50 @@ func c10Swallow(c *Ctx) {
 	}
 	// each way the key configuration can ask for a timestamp (Timestamp==true, Timestamper!="")
 	// must lead to the store unless the caller opted out (no-timestamp)
-	wants := Guard{Match: func(f Fact) bool {
-		_, fld, _ := p.fieldLoad(f.V)
-		if fld == "Timestamp" && f.Kind == IsTrue {
+	covered := map[string]bool{}
+	var wantsVal func(v ssa.Value, kind FactKind, depth int) bool
+	wantsVal = func(v ssa.Value, kind FactKind, depth int) bool {
+		if depth > 4 {
+			return false
+		}
+		_, fld, _ := p.fieldLoad(v)
+		if fld == "Timestamp" && kind == IsTrue {
+			covered["Timestamp"] = true
 			return true
 		}
-		if bo, ok := f.V.(*ssa.BinOp); ok {
+		if bo, ok := v.(*ssa.BinOp); ok {
 			_, f2, _ := p.fieldLoad(bo.X)
 			if f2 == "Timestamper" {
 				if s, ok := constString(bo.Y); ok && s == "" {
-					return (bo.Op == token.NEQ && f.Kind == IsTrue) || (bo.Op == token.EQL && f.Kind == IsFalse)
+					if (bo.Op == token.NEQ && kind == IsTrue) || (bo.Op == token.EQL && kind == IsFalse) {
+						covered["Timestamper"] = true
+						return true
+					}
 				}
 			}
 		}
+		// a named boolean: `want := kconf.Timestamp || kconf.Timestamper != ""` is a phi of the constant
+		// true (entered from the test of Timestamp) and the second test
+		if ph, ok := v.(*ssa.Phi); ok && kind == IsTrue {
+			all := len(ph.Edges) > 0
+			for i, e := range ph.Edges {
+				if b, isK := boolConst(e); isK {
+					pb := ph.Block().Preds[i]
+					ifi, isIf := pb.Instrs[len(pb.Instrs)-1].(*ssa.If)
+					if !b || !isIf || !wantsVal(ifi.Cond, IsTrue, depth+1) {
+						all = false
+					}
+					continue
+				}
+				if !wantsVal(e, IsTrue, depth+1) {
+					all = false
+				}
+			}
+			return all
+		}
 		return false
-	}}
+	}
+	wants := Guard{Match: func(f Fact) bool { return wantsVal(f.V, f.Kind, 0) }}
 	optOut := Guard{Match: func(f Fact) bool {
 		call, _ := resultOf(f.V)
 		if call != nil && p.calleeName(call.Common()) == "(*signers.FlagValues).GetBool" && f.Kind == IsTrue {
@@ -564,7 +593,16 @@ func c10Swallow(c *Ctx) {
 	var starts []*ssa.BasicBlock
 	for e := range wantEdges {
 		if t := in.Blocks[e.from].Succs[e.succ]; t != store.Block() {
-			starts = append(starts, t)
+			// an edge into the block that merges the wishes into a named boolean is covered by the test of that boolean
+			merged := false
+			for _, ins := range t.Instrs {
+				if ph, ok := ins.(*ssa.Phi); ok && wantsVal(ph, IsTrue, 0) {
+					merged = true
+				}
+			}
+			if !merged {
+				starts = append(starts, t)
+			}
 		}
 	}
 	pred := map[int]int{}
@@ -577,7 +615,7 @@ func c10Swallow(c *Ctx) {
 			path = p.witness(in, pred, ret.Block().Index)
 		}
 	}
-	c.Check(!bad && len(wantEdges) >= 2, r, "internal/signinit.Init installs timestamper", p.Pos(store.Pos()), "whenever the key sets `timestamp` or names a `timestamper`, Init either installs one, fails, or the caller opted out", "Init can succeed without installing the Timestamper although the key configuration asks for a timestamp (timestamp: true or a named timestamper)", path...)
+	c.Check(!bad && len(wantEdges) >= 1 && covered["Timestamp"] && covered["Timestamper"], r, "internal/signinit.Init installs timestamper", p.Pos(store.Pos()), "whenever the key sets `timestamp` or names a `timestamper`, Init either installs one, fails, or the caller opted out", "Init can succeed without installing the Timestamper although the key configuration asks for a timestamp (timestamp: true or a named timestamper)", path...)
 	// and the timestamper installed selects the configured pool
 	okName := dependsOn(store.Val, func(x ssa.Value) bool {
 		_, f, _ := p.fieldLoad(x)
